@@ -218,6 +218,13 @@ def api_op(r, ndev, own):
                                         r.choice([65535, 0, 2046, 2047, 2048, 275]), r.choice([255, 0, 4, 7, 8, 15]))
     if x < 0.975:
         return 'X'
+    if x < 0.978:
+        return 'W %s %d %s' % (r.choice('tr'), idev, ','.join(str(p) for p in r.sample(FAST_PGNS + SINGLE_PGNS + [65300, 130900, 127500, 129540, 130577, 128275], r.randint(0, 7))) or '-')
+    if x < 0.982:
+        return 'O %d %d' % (r.randrange(5), r.randrange(2))
+    if x < 0.985:
+        hx = lambda n: bytes(r.choice(b'ABCabc0123 -./') for _ in range(n)).hex() or '-'
+        return 'K %s %s %s %s %s' % (r.choice('sp'), hx(r.choice([0, 5, 31, 32, 33])), hx(r.choice([0, 7, 32])), hx(r.choice([0, 3, 32, 40])), hx(r.choice([0, 8, 32])))
     if x < 0.99:
         return 'L %d %s' % (r.randrange(4), ','.join(str(p) for p in r.sample(FAST_PGNS + SINGLE_PGNS + [65300, 130900, 127500], r.randint(0, 3))) or '-')
     return 'M %d %d' % (r.choice([0, 1, 2, 3, 4]), r.choice([own[0], 30, 251, 100, 254]))
